@@ -40,46 +40,65 @@ LEVEL = "exploration"
 SHARDS = {"quick": 8, "thorough": 16}
 BUDGET = {"quick": 26.0, "thorough": 400.0}
 REQUIRE = {
-    "frames_drawn": 1500,
-    "cells_compared": 100000,
-    "cursor_checks": 1500,
-    "rows_skipped_unchanged": 300,
-    "el_shortcut_rows": 300,
-    "insert_trick_rows": 300,
-    "resizes": 100,
-    "clears": 100,
-    "repaint_equivalence_checks": 300,
-    "html_frames": 300,
-    "widget_frames": 100,
-    "enc_nonutf8_frames": 200,
-    "reach:display._raw_display_base.Screen._last_row": 300,
+    "frames_drawn": 500,
+    "cells_compared": 15000,
+    "cursor_checks": 500,
+    "rows_skipped_unchanged": 100,
+    "el_shortcut_rows": 100,
+    "insert_trick_rows": 100,
+    "resizes": 30,
+    "clears": 30,
+    "repaint_equivalence_checks": 50,
+    "html_frames": 100,
+    "html_rows_compared": 300,
+    "html_cursor_highlighted": 30,
+    "widget_frames": 30,
+    "enc_nonutf8_frames": 100,
+    "partial_mode_frames": 20,
+    "frames_same_object": 10,
+    "reach:display._raw_display_base.Screen._last_row": 100,
+    "reach:display._raw_display_base.Screen._attrspec_to_escape": 500,
+    "reach:display.html_fragment.html_span": 500,
 }
 RULE = (
     "case = (screen configuration: output encoding in {utf-8, utf8, iso8859-1, ascii}, colours in {1,16,88,256,2**24}, "
-    "fg_bright_is_bold, back_color_erase, palette registered before/after set_terminal_properties; a generated palette of "
-    "3/4/6-tuples and aliases; a history of 1-12 ops: draw(frame) | clear | SIGWINCH | redraw same canvas object | redraw "
-    "equal canvas). Frames are TextCanvas / CompositeCanvas (wrap, join, combine) built from adversarial row classes "
-    "(wide character in the last two cells, sole wide character at width 2, DEC line-drawing glyph beside ASCII at the "
-    "right edge, trailing blanks carrying underline/standout/strikethrough/background, undefined names, AttrSpec objects, "
-    "None), one-row mutations of the previous frame, or renders of small real widget trees; sizes 1x1..40x12; a frame whose "
-    "size differs from the current one is preceded by the resize protocol. Distinct = hash of the whole case descriptor; "
-    "non-trivial = at least one frame was drawn and compared."
+    "fg_bright_is_bold, back_color_erase, palette registered before/after set_terminal_properties, alternate buffer or "
+    "partial-screen mode with 0..h-1 history rows above the display; a generated palette of 3/4/6-tuples, aliases and "
+    "(rarely) a None entry; a history of 1-12 ops: draw(frame) | clear | SIGWINCH | redraw the same canvas object | redraw an "
+    "equal canvas). Frames are TextCanvas / CompositeCanvas (wrap, CanvasJoin, CanvasCombine) built from adversarial row "
+    "classes (wide character in the last two cells, sole wide character at width 2, wide/narrow and narrow/wide pairs, DEC "
+    "line-drawing glyph beside ASCII at the right edge, combining mark on the last cell, trailing blanks carrying "
+    "underline/standout/strikethrough/background, one-character attribute runs, undefined names, AttrSpec objects of all five "
+    "depths, None; rarely C0 controls and IBM-PC charset runs), one-row / attribute-only / cursor-only mutations of the "
+    "previous frame, or renders of small real widget trees (Text/Edit/Divider/Pile/Columns/LineBox/AttrMap/Padding in a Filler); "
+    "sizes 1x1..40x12; a frame whose size differs from the current one is preceded by the resize protocol (TIOCSWINSZ, "
+    "_sigwinch_handler, 'window resize' key, get_cols_rows). Every frame of a history is also given to HtmlGenerator (first and "
+    "last two). Plus 40 fixed directed histories. Distinct = hash of the whole case descriptor; non-trivial = at least one "
+    "frame was drawn and compared."
 )
 ASSUMES = [
     "Ground truth for what a byte stream paints is vmon.models.vt.VT (xterm semantics: pending-wrap at the last column, IRM insert, "
-    "EL with optional back-colour-erase set equal to Screen.back_color_erase, SO/SI with G1 = DEC special graphics, SGR 11/10 = cp437 font).",
+    "EL with back-colour-erase set equal to Screen.back_color_erase, SO/SI with G1 = DEC special graphics, SGR 11/10 = cp437 font "
+    "not reset by SGR 0).",
     "The str objects written by Screen are encoded with the urwid target encoding (what sys.stdout of a matching locale does).",
     "Expected style of an attribute = my own reading of the palette spec strings for the active depth (vmon.models.c04_style); only "
-    "colour forms with an undisputed meaning are generated (names, hN, cube corners, #rrggbb in true colour); nearest-colour matching is C18.",
+    "colour forms with an undisputed meaning are generated (names, hN, cube corners, #rrggbb in true colour; at 88 colours palette "
+    "entries use hN only for N<16 because urwid documents falling back to the basic colours otherwise); nearest-colour matching is C18.",
+    "An AttrSpec object used as a canvas attribute means its own spec strings at its own depth, whatever the screen's depth.",
     "On a terminal whose bold means bright (fg_bright_is_bold) bold+colour n<8 and bright colour n+8 are the same; on a blank cell only "
     "background, underline, standout and strikethrough (and the foreground when standout) are visible and compared.",
     "The canvas is the specification: glyph of a cell = canvas bytes decoded with the screen encoding, through the DEC special-graphics "
-    "table for cs='0' runs and cp437 for cs='U' runs; bytes < 0x20 are shown as '?'.  Canvases are built with urwid's own "
-    "apply_target_encoding, so cs runs only occur where urwid itself produces them.",
+    "table for cs='0' runs and cp437 for cs='U' runs; zero-width characters belong to the cell before them; a C0 control inside "
+    "canvas text occupies no column (that is what TextCanvas/calc_width say), so nothing is expected on the glass for it.  Canvases are "
+    "built with urwid's own apply_target_encoding, so cs='0' runs only occur where urwid itself produces them.",
     "The first frame after start() is drawn on the blank alternate screen; after clear() and after a resize the VT is filled with "
     "GARBAGE sentinel cells, so only a complete repaint passes.",
+    "Partial-screen mode (start(alternate_buffer=False)): the display starts at the cursor row of the normal screen below `base` rows "
+    "of history that must stay intact; canvas rows that have no terminal row are blank; blank rows whose attribute paints like the "
+    "default entry may be left unpainted (documented intent), other rows are judged like in full-screen mode; no GARBAGE, no resizes.",
     "TERM=xterm is set while the Screen is constructed (term-specific branches 'fbterm'/'linux' are outside the quantifier).",
-    "Partial-screen mode (start(alternate_buffer=False)) is not judged: the statement does not mention it and it deliberately leaves blank rows unpainted.",
+    "HTML: rows containing C0 controls or IBM-PC charset runs are not judged (how such bytes are visualised is not specified); the "
+    "highlighted cursor span must start with the base character of exactly the canvas cursor cell (a combining mark may stay outside).",
 ]
 
 TRUE = 2**24
@@ -448,7 +467,7 @@ def row_shape(exp: Expect, y, cfg):
 def _cs_tag(exp, y, x):
     # charset of the canvas item that starts at column x
     col = 0
-    for b, w, _a, cs in exp.items[y]:
+    for _b, w, _a, cs in exp.items[y]:
         if col == x and w:
             return {None: "", "0": "dec", "U": "ibm"}[cs]
         col += w
@@ -767,7 +786,10 @@ class Session:
             cell = "char"
         if cell == "trailing-blank":
             return f"C04|raw|style|trailing-blank-cell|lost:{'+'.join(d)}"
-        return f"C04|raw|style|{cell}-cell|attr={kind}|differs:{'+'.join(d)}"
+        colours = any(f in ("fg", "bg") for f in d)
+        flags = any(f not in ("fg", "bg") for f in d)
+        cat = "colours+flags" if colours and flags else ("colours" if colours else "flags")
+        return f"C04|raw|style|{cell}-cell|attr={kind}|differs:{cat}"
 
     def describe(self, exp):
         out = [f"cfg={self.cfg}", "terminal:"]
@@ -895,7 +917,6 @@ def run_html(ctx, cfg, palette, frame, count=True):
         except Exception:  # noqa: BLE001
             return None
         kinds = sorted({attr_kind(c[3], pal) for row in exp.cells for c in row})
-        has_dec = any(cs == "0" for row in exp.items for (_b, _w, _a, cs) in row)
         gen = H.HtmlGenerator()
         try:
             gen.set_terminal_properties(colors=cfg["colors"])
